@@ -33,7 +33,8 @@ EdgeErr(g, e) ==
                           (P[3].t[c] (-) DScale(<<1,2>>, P[1].t[c] (+) P[2].t[c])) (-) DI(e.tz[c])])
     [] e.cls = "range" -> LET d == VSub(P[1].t, P[2].t)
                               s2 == DSum([c \in 1..Len(d) |-> d[c] ** d[c]], Len(d))
-                          IN << DSqrt(s2) (-) DI(e.tz[1]) >>
+                          IN IF QIsSquare(s2.v) /\ ~QIsZero(s2.v) THEN << DSqrt(s2) (-) DI(e.tz[1]) >>
+                             ELSE Assert(FALSE, "range edge: the separation is not a non-zero perfect square (not on the lattice)")
 
 \* scalar part of the SE(3) error quaternion of an odometry-type edge (1 otherwise): its sign separates the two conventions, 0 = half turn
 EdgeW(g, e) == IF e.cls = "odo" /\ g.verts[e.vs[1]].k = "SE3"
